@@ -12,27 +12,44 @@ META = {
              "unifies_complete: the matching test never rejects a clause that has a common instance with the call). The model is tied to "
              "the code differentially: generated predicates (static, dynamic with interleaved updates, and the '$clause' twin behind "
              "clause/2), called with every pool value written literally, computed at run time and unbound; the observed findall lists "
-             "are compared in Coq with the model's answers (checks_decide_agreement)."),
+             "are compared in Coq with the model's answers (checks_decide_agreement). "
+             "For consulted (static) predicates the indexing CODE is inside the proof as well (Code.v): build_code mirrors compile_predicate / "
+             "compile_pred_subseq / index_term / compute_indices (outer and inner try_me_else/retry_me_else/trust_me chains, switch_on_term with "
+             "Fail/External/Internal pointers, switch_on_constant, switch_on_structure, IndexedChoice try/retry/trust lines, real code offsets), "
+             "exec_code mirrors the IndexingCode arm of the dispatch loop with (bp, boip, biip) or-frames; theorems code_refines_model "
+             "(running the built code enters exactly the clauses the abstract index selects, in order, never stuck, for every clause list, "
+             "clause-code length function and call) and code_select_exact (hence exactly the unifying clauses). This mirror is tied to the "
+             "implementation by comparing, in Coq (check_listing), the listing library(diag) wam_instructions/2 gives for every generated consulted "
+             "predicate with build_code's output item by item, offsets included."),
     "note": ("Trusted: Coq kernel + vm_compute; harness vrun; the Python generator and its localising oracle (the verdict is Coq's). "
-             "Modelled, not verified: the WAM code threading (try/retry/trust chains, RevJmpBy patching) is abstracted to 'the clauses of a "
-             "sub-sequence in order'; a retracted clause of a dynamic predicate is removed from the model's tables (the code keeps it and "
+             "Modelled, not verified: for DYNAMIC predicates the WAM code threading (DynamicElse chains, RevJmpBy patching) is abstracted to 'the "
+             "clauses of a sub-sequence in order' (for consulted predicates it is mirrored in Code.v and proved); in Code.v a clause's own code is "
+             "opaque (Enter + padding of the observed length: entering it reports the clause, then the machine backtracks), "
+             "next_applicable_clause (the look-ahead that skips a following clause/sub-sequence whose shallow head test or indexing code "
+             "fails) is not modelled, the fuel of the switch loop is an artefact (the real loop is unbounded); the listing comparison is skipped "
+             "(counted in distribution.listing.skipped_bignum_cell_key) for predicates whose indexed argument holds an integer in a bignum cell "
+             "that is small (a second Fixnum key) or occurs twice (two keys by address): by value these are one key, the known findings "
+             "index:literal-bignum-key / index:literal-small-value-in-bignum-cell; check_listing is a structural equality test (list_eqb of "
+             "derived eqb functions, not proved to decide equality); a retracted clause of a dynamic predicate is removed from the model's tables (the code keeps it and "
              "skips it by the birth/death test: logical update view, property C09); head unification is structural matching with constants by "
              "value, exact for linear, variable-disjoint call/head pairs (the generator produces only such pairs). Keys by value is the "
              "SPECIFICATION side: the code looks a constant up by its raw cell, which is the known defect reported under the keys "
              "index:*bignum*/index:computed-integral-rational-key. No axioms."),
-    "technique": "Coq proof (index_exact, index_incremental, answers_are_naive) over an impl-mirror model + differential correspondence evaluated in Coq",
+    "technique": "Coq proof (index_exact, index_incremental, answers_are_naive, code_refines_model, code_select_exact) over an impl-mirror model + differential correspondence evaluated in Coq",
     "design_ref": "DESIGN.md section 8, C06",
     "coq_targets": ["C06/Props.vo"],
     "coq_dirs": ["C06"],
     "props": "C06/Props.v",
     "trusted_base": ["Coq 8.16.1 kernel, vm_compute (no native_compute)", "harness/vrun + tools/vlib (correspondence)",
                      "Python generator / localising oracle (checks/C06.py)",
-                     "WAM choice-instruction threading and the birth/death filter abstracted, not verified"],
+                     "dynamic predicates: WAM choice-instruction threading and the birth/death filter abstracted, not verified",
+                     "library(diag) wam_instructions/2 (the listing of the generated code) + its translation to Coq (parse_listing)",
+                     "next_applicable_clause look-ahead not modelled"],
     "assumptions": ["calls and clause heads of the correspondence are linear and variable-disjoint (structural matching = unifiability)",
                     "updates of dynamic predicates happen before the observed calls start (open calls during updates: C09, known finding)"],
 }
 
-IMPORTS = "From V Require Import Base.Term C06.Model."
+IMPORTS = "From V Require Import Base.Term C06.Model C06.Code."
 LIMIT_PER_KEY = 3
 
 
@@ -266,6 +283,132 @@ def call_key(case, variant, o, exp, clauses, fb, interrupted):
     return "index:%s%s" % (sym, SUFFIX[variant])
 
 
+
+# ------------------------------------------------------------------ the implementation's indexing listing (library(diag))
+CHOICE = {"try_me_else": "OTry", "retry_me_else": "ORetry", "default_retry_me_else": "ORetry", "trust_me": "OTrust", "default_trust_me": "OTrust"}
+ICHOICE = {"try": "ITry", "retry": "IRetry", "default_retry": "IRetry", "trust": "ITrust", "default_trust": "ITrust"}
+
+
+def _lptr(t):
+    if t.get("a") == "fail": return "PFail"
+    if "c" in t and t["c"][0] in ("external", "internal") and len(t["c"]) == 2:
+        return "(%s %d)" % ("PExt" if t["c"][0] == "external" else "PInt", int(t["c"][1]["i"]))
+    raise ValueError("pointer %r" % (t,))
+
+
+def _lckey(t):
+    if "a" in t: return "(KAtom %s)" % terms.coq_name(t["a"])
+    if "l" in t and t["l"] == []: return "(KAtom %s)" % terms.coq_name("[]")
+    if "i" in t:
+        n = int(t["i"])
+        if abs(n) < (1 << 62): return "(KInt (%d))" % n
+        m, limbs = abs(n), []
+        while m:
+            limbs.append(m & ((1 << 60) - 1)); m >>= 60
+        z = "limbs [%s]" % "; ".join("%d%%Z" % x for x in limbs)
+        return "(KInt (Z.opp (%s)))" % z if n < 0 else "(KInt (%s))" % z
+    if "f" in t:
+        b = int(t["f"], 16)
+        return "(KFlt %d)" % (0 if b == NEG0 else b)
+    if "r" in t: return "(KRat (%d) (%d))" % (int(t["r"][0]), int(t["r"][1]))
+    raise ValueError("constant key %r" % (t,))
+
+
+def _lpairs(t, keyf):
+    out = []
+    for e in t["l"]:
+        if not ("c" in e and e["c"][0] == ":" and len(e["c"]) == 3): raise ValueError("map entry %r" % (e,))
+        out.append("(%s, %s)" % (keyf(e["c"][1]), _lptr(e["c"][2])))
+    return "[%s]" % "; ".join(out)
+
+
+def _lskey(t):
+    if not ("c" in t and t["c"][0] == "/" and "a" in t["c"][1]): raise ValueError("structure key %r" % (t,))
+    return "(%s, %d)" % (terms.coq_name(t["c"][1]["a"]), int(t["c"][2]["i"]))
+
+
+def parse_listing(items):
+    """wam_instructions/2 list (JSON terms) -> (Coq text of a `list oinstr`, clause code lengths, features).  The lines of
+    one IndexingCode instruction are listed one after the other (switch_on_term first; every `try` opens an IndexedChoice
+    line); everything that is not a choice or indexing item is clause code (the generated bodies contain no disjunction)."""
+    out, lens, feats = [], [], set()
+    idx, choice, run_len = None, None, 0
+
+    def flush_idx():
+        nonlocal idx, choice
+        if idx is not None:
+            if choice is not None: idx.append("LChoice [%s]" % "; ".join(choice))
+            out.append("OIdx [%s]" % "; ".join(idx))
+        idx, choice = None, None
+
+    def flush_clause():
+        nonlocal run_len
+        if run_len:
+            lens.append(run_len)
+            out.append("OClause %d%%N %d" % (len(lens), run_len))
+        run_len = 0
+
+    for it in items:
+        name = it["a"] if "a" in it else it["c"][0] if "c" in it else None
+        args = it["c"][1:] if "c" in it else []
+        if name == "switch_on_term" and len(args) == 5:
+            flush_clause(); flush_idx()
+            idx = ["LTerm %d %s" % (int(args[0]["i"]), " ".join(_lptr(a) for a in args[1:]))]
+            feats.add("switch_on_term")
+        elif name == "switch_on_constants" and idx is not None and run_len == 0:
+            if choice is not None: raise ValueError("switch line after an IndexedChoice line")
+            idx.append("LCon %s" % _lpairs(args[0], _lckey)); feats.add("switch_on_constant")
+        elif name == "switch_on_structure" and idx is not None and run_len == 0:
+            if choice is not None: raise ValueError("switch line after an IndexedChoice line")
+            idx.append("LStr %s" % _lpairs(args[0], _lskey)); feats.add("switch_on_structure")
+        elif name in ICHOICE and idx is not None and run_len == 0 and len(args) == 1:
+            if name == "try":
+                if choice is not None: idx.append("LChoice [%s]" % "; ".join(choice))
+                choice = []
+            if choice is None: raise ValueError("retry/trust outside an IndexedChoice line")
+            choice.append("%s %d" % (ICHOICE[name], int(args[0]["i"]))); feats.add("indexed_choice")
+        elif name in CHOICE:
+            flush_clause(); flush_idx()
+            out.append("OTrust" if CHOICE[name] == "OTrust" else "%s %d" % (CHOICE[name], int(args[0]["i"])))
+        else:
+            flush_idx()
+            run_len += 1
+    flush_clause(); flush_idx()
+    return "[%s]" % "; ".join(out), lens, feats
+
+
+def n_spans(clauses):
+    """number of sub-sequences split_predicate makes (a statistic only)"""
+    spans, cur, is_open = 0, 0, False
+    for _, args in clauses:
+        j = next((k for k, a in enumerate(args) if a[0] != "var"), None)
+        if j is None:
+            spans += (1 if is_open else 0) + 1
+            is_open, cur = False, 0
+        elif is_open and j == cur:
+            pass
+        else:
+            if is_open: spans += 1
+            is_open, cur = True, j
+    return spans + (1 if is_open else 0)
+
+
+def bignum_cell_hazard(clauses, fb):
+    """The mirror keys constants by value; the implementation keys an integer held in a bignum cell by address (known
+    findings index:literal-bignum-key*, index:literal-small-value-in-bignum-cell*): two equal big keys are two map entries,
+    and a bignum cell holding a small value gets a second (Fixnum) entry.  The listings differ exactly there."""
+    lo, hi = fb
+    seen = set()
+    for _, args in clauses:
+        for j, a in enumerate(args):
+            if a[0] == "var": continue
+            if a[0] == "int" and not (lo < a[1] <= hi):
+                if a[1] == lo or (j, a[1]) in seen: return True
+                seen.add((j, a[1]))
+            break
+    return False
+
+
 def sentinels():
     """Fixed scenarios (always run, whatever the seed): (static/dynamic initial clauses, ops)."""
     B, lo = 1 << 70, None
@@ -366,7 +509,7 @@ def run(ctx):
             else:
                 inner = "findall(Y, %s, L)" % goal
             return ("%s, %s." % (c["setup"], inner)) if c["setup"] else inner + "."
-        stext = ":- use_module(library(lists)).\n" + "".join(clause_line(sname, c, st) for c, st in init)
+        stext = ":- use_module(library(lists)).\n:- use_module(library(diag)).\n" + "".join(clause_line(sname, c, st) for c, st in init)
         squeries = [q(sname, c, "call") for c in calls]
         comp_ix = []
         if pr["compiled"]:
@@ -375,6 +518,7 @@ def run(ctx):
                     stext += "cq%s_%d_%d(L) :- findall(Y, %s(%s,%s,Y), L).\n" % (uid, n, j, sname, c["a1"], c["a2"])
                     squeries.append("cq%s_%d_%d(L)." % (uid, n, j)); comp_ix.append(j)
         pr["comp_ix"] = comp_ix
+        squeries.append("wam_instructions(%s/3, Is)." % sname)     # always the last query of the static job
         jobs.append({"id": "S%d" % n, "consult": stext, "queries": squeries, "max_answers": 3, "timeout_ms": 4000, "fresh": n % 40 == 0})
         dtext = ":- use_module(library(lists)).\n:- dynamic(%s/3).\n" % dname + "".join(clause_line(dname, c, st) for c, st in dyn_init)
         dqueries = []
@@ -403,6 +547,7 @@ def run(ctx):
 
     failures, tie_breaks, reported = [], [], {}
     bools, bmeta = [], []
+    listing_cases = []
     evaluations = 0
     nontrivial = set()
     dist = {"predicates": npred, "calls_by_tag": {}, "clauses_hist": {}, "ops": {"a": 0, "z": 0, "r": 0}, "answers_len": {}, "pruned_cases": 0,
@@ -441,6 +586,8 @@ def run(ctx):
             rs = sj["results"]
             sq = jobs[2 * n]["queries"]
             groups.append(("static", init, list(zip(p["calls"], rs[:ncalls], sq[:ncalls]))))
+            if init and sq[-1].startswith("wam_instructions("):
+                listing_cases.append((p, rs[-1] if len(rs) == len(sq) else None, sq[-1]))
             if p["comp_ix"]:
                 groups.append(("compiled", init, [(p["calls"][j], a, "in a compiled clause body: " + sq[j]) for j, a in zip(p["comp_ix"], rs[ncalls:])]))
         if dj is None or "results" not in dj:
@@ -497,9 +644,57 @@ def run(ctx):
             samples.append({"clauses": [ptxt(S("p", *x[1])) for x in init], "query": jobs[2 * n]["queries"][len(heads) + 2],
                             "impl": json.dumps(sj["results"][len(heads) + 2])[:120], "model": str(naive(init, [c["c1"], c["c2"], V]))})
 
+    # ---- the indexing code itself: the implementation's listing of every consulted predicate against build_code
+    nmain = len(bools)
+    lmeta = []
+    ldist = {"compared": 0, "skipped_bignum_cell_key": 0, "differs": 0, "with_indexing_code": 0, "with_switch_on_constant": 0,
+             "with_switch_on_structure": 0, "with_indexed_choice": 0, "several_sub_sequences": 0}
+    dist["listing"] = ldist
+    for p, ans, qt in listing_cases:
+        init = [c for c, _ in p["init"]]
+        if bignum_cell_hazard(init, fb):
+            ldist["skipped_bignum_cell_key"] += 1
+            continue
+        items = None
+        if ans and isinstance(ans[0], dict) and "b" in ans[0] and "l" in ans[0]["b"].get("Is", {}):
+            items = ans[0]["b"]["Is"]["l"]
+        if items is None:
+            tie_breaks.append({"kind": "harness", "what": "no indexing listing obtained for a consulted predicate", "detail": "%s -> %s" % (qt, json.dumps(ans)[:300])})
+            continue
+        try:
+            obs, lens, feats = parse_listing(items)
+        except (ValueError, KeyError, TypeError, IndexError) as e:
+            tie_breaks.append({"kind": "correspondence", "key": "index-code:listing-not-recognised",
+                               "what": "the listing of wam_instructions/2 has a shape the translator does not know (%s)" % e,
+                               "detail": "%s   %% clauses: %s -> %s" % (qt, ctext(init), json.dumps(items)[:1500])})
+            continue
+        ldist["compared"] += 1
+        evaluations += 1
+        if "switch_on_term" in feats:
+            ldist["with_indexing_code"] += 1
+            nontrivial.add(("listing", tuple(ptxt(x[1][0]) + "/" + ptxt(x[1][1]) for x in init)))
+        for f, k in (("switch_on_constant", "with_switch_on_constant"), ("switch_on_structure", "with_switch_on_structure"), ("indexed_choice", "with_indexed_choice")):
+            if f in feats: ldist[k] += 1
+        if n_spans(init) > 1: ldist["several_sub_sequences"] += 1
+        # clause identities are positions here (the listing names no clause)
+        pos_clauses = "; ".join(coq_clause((j + 1, c[1])) for j, c in enumerate(init))
+        bools.append("check_listing [%s] [%s] %s" % (pos_clauses, "; ".join("%d" % x for x in lens), obs))
+        lmeta.append((p, init, obs, lens, qt, pos_clauses))
+
     bad, errs = core.coq_eval_bools(ctx.prop, IMPORTS, bools, chunk=60)
     tie_breaks += [{"kind": "coq-eval", "what": "model evaluation shard failed", "detail": t} for _, t in errs]
     badset = set(bad)
+    for i in range(nmain, len(bools)):
+        if i not in badset: continue
+        p, init, obs, lens, qt, pos_clauses = lmeta[i - nmain]
+        ldist["differs"] += 1
+        if ldist["differs"] > LIMIT_PER_KEY: continue
+        mirror = core.coq_eval_show(ctx.prop, IMPORTS, "let code := build_code (clen_of [%s]) [%s] in shape (S (List.length code)) code" %
+                                    ("; ".join("%d" % x for x in lens), pos_clauses))
+        tie_breaks.append({"kind": "correspondence", "key": "index-code:listing-differs-from-mirror",
+                           "what": "the indexing code the implementation generated for a consulted predicate is not the code build_code (Coq mirror of "
+                                   "compile_predicate / compute_indices) generates",
+                           "detail": "%s   %% clauses: %s\nimpl: %s\nmirror: %s" % (qt, ctext(init), obs[:2500], mirror[:2500])})
     for i, (p, variant, clauses, local_bad, broken, setup_txt) in enumerate(bmeta):
         coq_bad = i in badset
         py_bad = any(o is not None for (_, o, _, _, _, _) in local_bad)
@@ -531,7 +726,8 @@ def run(ctx):
                  "with every pool value as a literal, %d run-time computed values (is/2 through bignums and rationals, atom_length, number_chars, "
                  "atom_chars, functor, =..), and unbound; observable = findall list of clause numbers, compared in Coq with the model's answers "
                  "(check_static / check_dynamic). Non-trivial = distinct (variant, clause heads, call) with a bound first argument where selection "
-                 "matters (not every clause unifies)") % (len(sent), len(comp)),
+                 "matters (not every clause unifies); plus, per consulted predicate, its wam_instructions/2 listing compared with build_code "
+                 "(non-trivial = distinct clause-head lists whose listing contains indexing code)") % (len(sent), len(comp)),
         "samples": samples,
         "distribution": dist,
         "failures": failures,
